@@ -170,6 +170,153 @@ def to_smt2(hyps, goal, extra_axioms=(), slicing=True):
     return s.to_smt2(), sorted(axs)
 
 
+def _subterms(exprs):
+    seen = {}
+    stack = list(exprs)
+    while stack:
+        t = stack.pop()
+        k = t.get_id()
+        if k in seen:
+            continue
+        if z3.is_quantifier(t):
+            continue   # terms under binders are not ground
+        seen[k] = t
+        if z3.is_app(t):
+            stack.extend(t.children())
+    return list(seen.values())
+
+
+def ground_instances(exprs, rounds=2):
+    """quantifier-free instances of the sequence axioms for the ground terms that occur (hand-rolled,
+    bounded E-matching).  Every instance is a consequence of AXIOMS, so  unsat  of the ground query is a
+    proof, and  sat  yields a genuine model of a decidable weakening (candidate counterexample)."""
+    out = {}
+    cur = list(exprs)
+    for _ in range(rounds):
+        new = []
+        for t in _subterms(cur):
+            if not z3.is_app(t):
+                continue
+            n = t.decl().name() if t.decl().kind() == z3.Z3_OP_UNINTERPRETED else None
+            if n is None:
+                continue
+            inst = []
+            a = t.children()
+            if n == "s_len":
+                inst.append(t >= 0)
+                x = a[0]
+                xn = x.decl().name() if z3.is_app(x) and x.decl().kind() == z3.Z3_OP_UNINTERPRETED else None
+                xa = x.children() if z3.is_app(x) else []
+                if xn == "scat":
+                    inst.append(t == slen(xa[0]) + slen(xa[1]))
+                elif xn == "sslice":
+                    inst.append(z3.Implies(z3.And(0 <= xa[1], xa[1] <= xa[2], xa[2] <= slen(xa[0])), t == xa[2] - xa[1]))
+                elif xn == "pack32":
+                    inst.append(t == 4)
+                elif xn == "pack64":
+                    inst.append(t == 8)
+                elif xn == "sunit":
+                    inst.append(t == 1)
+                elif xn == "srep":
+                    inst.append(z3.Implies(xa[1] >= 0, t == xa[1]))
+                elif xn == "sempty":
+                    inst.append(t == 0)
+            elif n in ("scat", "sslice", "pack32", "pack64", "sunit", "srep"):
+                inst.append(slen(t) >= 0)
+                if n == "scat":
+                    inst.append(slen(t) == slen(a[0]) + slen(a[1]))
+                elif n == "sslice":
+                    inst.append(z3.Implies(z3.And(0 <= a[1], a[1] <= a[2], a[2] <= slen(a[0])), slen(t) == a[2] - a[1]))
+                elif n == "pack32":
+                    inst.append(slen(t) == 4)
+                    inst.append(z3.Implies(z3.And(0 <= a[0], a[0] < 2 ** 32), unpack32(t) == a[0]))
+                elif n == "pack64":
+                    inst.append(slen(t) == 8)
+                    inst.append(z3.Implies(z3.And(0 <= a[0], a[0] < 2 ** 64), unpack64(t) == a[0]))
+                elif n == "sunit":
+                    inst.append(z3.And(slen(t) == 1, sat_(t, 0) == a[0]))
+                elif n == "srep":
+                    inst.append(z3.Implies(a[1] >= 0, slen(t) == a[1]))
+            elif n == "unpack32":
+                inst.append(z3.And(0 <= t, t < 2 ** 32))
+                inst.append(z3.Implies(slen(a[0]) == 4, pack32(t) == a[0]))
+            elif n == "unpack64":
+                inst.append(z3.And(0 <= t, t < 2 ** 64))
+                inst.append(z3.Implies(slen(a[0]) == 8, pack64(t) == a[0]))
+            elif n == "s_at":
+                x, i = a
+                xn = x.decl().name() if z3.is_app(x) and x.decl().kind() == z3.Z3_OP_UNINTERPRETED else None
+                xa = x.children() if z3.is_app(x) else []
+                if xn == "scat":
+                    inst.append(z3.Implies(z3.And(0 <= i, i < slen(xa[0]) + slen(xa[1])),
+                                           t == z3.If(i < slen(xa[0]), sat_(xa[0], i), sat_(xa[1], i - slen(xa[0])))))
+                elif xn == "sslice":
+                    inst.append(z3.Implies(z3.And(0 <= xa[1], xa[1] <= xa[2], xa[2] <= slen(xa[0]), 0 <= i, i < xa[2] - xa[1]),
+                                           t == sat_(xa[0], xa[1] + i)))
+                elif xn == "srep":
+                    inst.append(z3.Implies(z3.And(0 <= i, i < xa[1]), t == xa[0]))
+                elif xn == "sunit":
+                    inst.append(z3.Implies(i == 0, t == xa[0]))
+                elif xn == "pack32":
+                    nn = xa[0]
+                    inst.append(z3.Implies(z3.And(0 <= nn, nn < 2 ** 32), z3.And(
+                        z3.Implies(i == 0, t == nn / (2 ** 24)), z3.Implies(i == 1, t == (nn / (2 ** 16)) % 256),
+                        z3.Implies(i == 2, t == (nn / (2 ** 8)) % 256), z3.Implies(i == 3, t == nn % 256))))
+            elif n == "seqeq":
+                inst.append(t == (a[0] == a[1]))
+                inst.append(z3.Implies(t, slen(a[0]) == slen(a[1])))
+            elif n == "pow2":
+                inst.append(z3.Implies(a[0] >= 0, t >= 1))
+                inst.append(z3.Implies(a[0] == 0, t == 1))
+            elif n == "utf8enc":
+                inst.append(z3.And(utf8ok(t), utf8dec(t) == a[0]))
+            elif n == "utf8dec":
+                inst.append(z3.Implies(utf8ok(a[0]), utf8enc(t) == a[0]))
+            for f in inst:
+                k = f.get_id()
+                if k not in out:
+                    out[k] = f
+                    new.append(f)
+        if not new:
+            break
+        cur = new
+    return list(out.values())
+
+
+def to_smt2_ground(hyps, goal, extra_ground=()):
+    """quantifier-free query: hyps /\\ ground axiom instances /\\ not goal.  Quantified hypotheses are dropped
+    (weakening), so unsat is still a proof and sat a candidate model."""
+    s = z3.Solver()
+    qf = [h for h in hyps if not _has_quant(h)]
+    neg = z3.Not(goal)
+    exprs = qf + [neg]
+    if _has_quant(neg):
+        return None
+    for f in ground_instances(exprs):
+        s.add(f)
+    for e in extra_ground:
+        s.add(e)
+    for h in qf:
+        s.add(h)
+    s.add(neg)
+    return s.to_smt2()
+
+
+def _has_quant(e):
+    stack = [e]
+    seen = set()
+    while stack:
+        t = stack.pop()
+        if t.get_id() in seen:
+            continue
+        seen.add(t.get_id())
+        if z3.is_quantifier(t):
+            return True
+        if z3.is_app(t):
+            stack.extend(t.children())
+    return False
+
+
 def _model_values(m, wanted):
     """evaluate the 'wanted' descriptors in model m.  wanted: list of dicts
     {name, kind: int|bool|seq, smt: <sexpr of the term>} ; terms are re-parsed in the
@@ -291,20 +438,32 @@ def discharge_one(job):
     """job: dict(name, smt2, wanted, z3_ms, cvc5_s, use_cvc5) -> result dict.  Runs in a worker."""
     res = {"name": job["name"], "backend": "z3", "verdict": None, "secs": 0.0, "reason": "", "model": None}
     try:
+        ground = None
+        if job.get("smt2_ground"):
+            gv, gdt, greason, gmv = solve_smt2_z3(job["smt2_ground"], job.get("ground_ms", 5000), job.get("wanted"))
+            ground = dict(verdict=gv, secs=gdt, reason=greason, model=gmv)
+            res["ground"] = ground
+            if gv == "unsat":
+                res.update(verdict="unsat", backend="z3-ground", secs=gdt)
+                return res
         v, dt, reason, mv = solve_smt2_z3(job["smt2"], job.get("z3_ms", 10000), job.get("wanted"))
-        res.update(verdict=v, secs=dt, reason=reason, model=mv)
+        res.update(verdict=v, secs=dt + (ground["secs"] if ground else 0), reason=reason, model=mv)
         if v == "unknown" and job.get("use_cvc5", True):
             v2, dt2, r2 = solve_smt2_cvc5(job["smt2"], job.get("cvc5_s", 20))
             res["cvc5"] = {"verdict": v2, "secs": dt2, "reason": r2}
             if v2 == "unsat":
-                res.update(verdict="unsat", backend="cvc5", secs=dt + dt2)
+                res.update(verdict="unsat", backend="cvc5", secs=res["secs"] + dt2)
             elif v2 == "sat":
-                res.update(verdict="sat", backend="cvc5", secs=dt + dt2)
+                res.update(verdict="sat", backend="cvc5", secs=res["secs"] + dt2)
             else:
-                res["secs"] = dt + dt2
+                res["secs"] = res["secs"] + dt2
         elif job.get("recheck_cvc5"):
             v2, dt2, r2 = solve_smt2_cvc5(job["smt2"], job.get("cvc5_s", 20))
             res["cvc5"] = {"verdict": v2, "secs": dt2, "reason": r2}
+        if res["verdict"] == "unknown" and ground and ground["verdict"] == "sat":
+            # the decidable weakening has a model and the full theory could not exclude it
+            res.update(verdict="candidate", model=ground["model"],
+                       reason="ground model; full query: %s" % (reason or "unknown"))
     except Exception as ex:
         res.update(verdict="error", reason="%s: %s" % (type(ex).__name__, ex))
     return res
